@@ -33,6 +33,12 @@ THEOREMS = [
     "copy_identity",
     "pair_action_invariant",
     "pair_history_invariant",
+    "step_headroom_any_state",
+    "step_from_fitting_state",
+    "inv_fits",
+    "user_cutoff_spec",
+    "user_history_headroom",
+    "user_history_fits",
 ]
 
 RULE = ("random TFIM graphs (2..6 spins, chain/ring/chord, J of both signs, dyadic Gamma, h zero and non-zero, beta 1/2..16) "
@@ -57,6 +63,13 @@ RULE = ("random TFIM graphs (2..6 spins, chain/ring/chord, J of both signs, dyad
         "all-time maximum while the cutoff must stay): clone() of both samplers, serde round trip of the sampler with its rng (both), the RNG-less "
         "SerializeQmcGraph + into_qmc(rng) form (Ising); kind `copy`, oracle: the copy reports the same cutoff, container, occupied slots and n as "
         "the original; both the copy and the original keep stepping under the step oracles. "
+        "USER-SUPPLIED CUTOFFS IN THE MIDDLE OF A RUN (both samplers; Metropolis / heat-bath / RVB): between steps the cutoff is set by hand to the "
+        "container's slot count, to the smallest value the string fits into (= n for a dense string) or to a value in [that, n + n/2 + 1) - through "
+        "set_cutoff, the trait's set_op_cutoff, or by rebuilding the sampler around a clone of the container and the state through the manager hook "
+        "of the constructor with that cutoff (kinds `usercut`, `restore`; the cutoff may be below the current one and below the slot count, every "
+        "operator stays below it); then one step through timestep or through single_diagonal_step / diagonal_update under the ordinary step oracle "
+        "(free slot, margin, exact rule) - it must hold after that very step whether or not the step added operators (counted: "
+        "usercut_*_steps_without_margin_adding_no_operator). "
         "LONG-STRING stream: 8 spins at beta 180 (quick) / 300, 500, 700 (thorough) started from cutoff 1..3 (n up to ~4.7k / ~18k operators), Ising and "
         "generic sampler, Metropolis and heat-bath, timestep and single_diagonal_step / diagonal_update: `step` cases only, oracle incl. the exact "
         "rule new = max(old, n + n/2 + 1) (also added to the per-step oracle of the small systems). "
